@@ -1631,8 +1631,10 @@ def own_rules(prog, tier, T):
     if P is None:
         T.skipped('R-LTL-0 .. R-LTL-5')
         return []
+    from . import c01
     return T.results(*[T(fn, prog, P) for fn in (
-        rule_ltl0, rule_ltl1, rule_ltl2, rule_ltl3, rule_ltl4, rule_ltl5)])
+        rule_ltl0, rule_ltl1, rule_ltl2, rule_ltl3, rule_ltl4, rule_ltl5)]) \
+        + T.results(T(c01._text_atoms, prog, PROP))
 
 
 def run(prog, tier, seed):
@@ -1665,6 +1667,9 @@ def run(prog, tier, seed):
         T(c12.rule_scc, prog), T(c12.rule_scc6, prog),
         T(c13.rule_g12, prog, adj, _n=2) if adj else None,
         T(c13.rule_g3, prog, adj) if adj else None,
-        T(c05.rule_rw3, prog), T(c11.rule_eq2, prog)),
+        T(c05.rule_rw3, prog), T(c11.rule_eq2, prog),
+        # the tableau is built for the *restricted* formula: the rewriting
+        # must keep the meaning (all connectives, every arity)
+        T(c05.rules_rw12, prog, tier, _n=2)),
         PROP, 'relied on by the LTL tableau procedure')
     return results, expl, assumptions, T.extra()
